@@ -479,6 +479,13 @@ class Engine:
                 ctx.ghost["__measure__"] = (contract.qual, contract.decreases(ctx, args))
             old = Old(ctx.snapshot())
             fr = Frame(mod, label, cls_qual)
+            closure_fn = getattr(contract, "closure", None)
+            if closure_fn is not None:
+                # a nested function under contract: the names it takes from the enclosing function (given by the contract);
+                # a free name the contract does not provide is Unsupported, i.e. undecided
+                outer = Frame(mod, qual, cls_qual)
+                outer.locals.update(closure_fn(ctx))
+                fr.closure = outer
             try:
                 res = ctx.force(self.run_body(ctx, fr, fn, args, kwargs))
                 if isinstance(res, VTuple):
